@@ -38,7 +38,8 @@ def main():
         if not f.endswith(".json"):
             continue
         fid = f[:-5]
-        fixes = [n for n in mds if fix2sha.get(n) and (n == fid or re.search(re.escape(fid) + r"(?![\w-])", mds[n]))]
+        slug = fid.split("-", 1)[1] if "-" in fid else fid
+        fixes = [n for n in mds if fix2sha.get(n) and (n == fid or n.split("-", 1)[1] == slug or re.search(re.escape(fid) + r"(?![\w-])", mds[n]))]
         if not fixes:
             continue
         path = os.path.join(d, f)
